@@ -283,7 +283,18 @@ pub(crate) fn run(opts: &Opts, report: &mut Report) {
             // up, and everything about blocks above the filtered height (not examined again after
             // the rollback) is a consequence of that wait, not another defect.
             if !cause.is_empty() && bad.iter().any(|(c, _)| c == "not-caught-up") {
-                let filtered = sim.as_ref().map(|s| s.c().storage.get_min_filtered_block_number()).unwrap_or(u64::MAX);
+                // (blocks of a stored record are examined only when the record completes: they
+                // count as not examined yet, although they lie at or below the filtered height)
+                let filtered = sim
+                    .as_ref()
+                    .map(|s| {
+                        let f = s.c().storage.get_min_filtered_block_number();
+                        match s.c().storage.get_earliest_matched_blocks() {
+                            Some((start, _, _)) => f.min(start.saturating_sub(1)),
+                            None => f,
+                        }
+                    })
+                    .unwrap_or(u64::MAX);
                 for (class, detail) in bad.iter_mut() {
                     let consequence = class == "not-caught-up" || subject_block(class, detail).map(|n| n > filtered).unwrap_or(false);
                     if consequence {
